@@ -1,7 +1,7 @@
 #!/bin/bash
 # usage: seed_pipeline.sh cNN NAME1 NAME2 CHECK...   (agent outputs in /tmp/mut_out/cNN, worktree /tmp/mut_cNN)
 c=$1; n1=$2; n2=$3; shift 3
-t=/verif/harness/tools; o=/tmp/mut_out/$c; wt=/tmp/mut_$c
+t=/verif/harness/tools; o=/tmp/mut_out/$c; wt=${WT:-/tmp/mut_$c}
 k=1
 for n in $n1 $n2; do
   if [ "$n" != "-" ] && [ -f $o/patch$k.diff ]; then
